@@ -44,6 +44,13 @@ def _width_cond(bits, what):
     return cond
 
 
+def _is_setter(name, f):
+    """a method that only sets up attributes of the object (no loop): part of the set-up wherever it was moved"""
+    stores = any(isinstance(n, ast.Attribute) and isinstance(n.ctx, ast.Store) and isinstance(n.value, ast.Name) and n.value.id == "self" for n in ast.walk(f))
+    loops = any(isinstance(n, (ast.While, ast.For, ast.AsyncFor)) for n in ast.walk(f))
+    return stores and not loops
+
+
 def tables(ctx):
     tb = getattr(ctx, "_c11_tables", None)
     if tb is not None:
@@ -52,7 +59,7 @@ def tables(ctx):
     for what, rel, cls, q in (("op2", OP2, "OP2", "OP2._op2open"), ("op4", OP4, "OP4", "OP4._op4open_read")):
         fn = ctx.src.func(rel, q)
         for bits in (32, 64):
-            w = C.Walker(ctx, rel, cls, fn, cond=_width_cond(bits, what), follow=False, files=(), pinned={"self._endian": F.sym("self._endian")})
+            w = C.Walker(ctx, rel, cls, fn, cond=_width_cond(bits, what), follow=_is_setter, files=(), pinned={"self._endian": F.sym("self._endian")})
             w.run_function()
             tb[what][bits] = {k: v for k, v in w.ev.env.items() if k.startswith("self.")}
     tb["fn"] = {"op2": ctx.src.func(OP2, "OP2._op2open"), "op4": ctx.src.func(OP4, "OP4._op4open_read")}
